@@ -15,7 +15,7 @@ encode/decode) and compares with oracles written for the check, independent of m
 Inputs are Python literals.  One Native per family x concern (per curve x coordinate system for EC, per parameter
 set for HC) so that one failure does not mask the others.
 """
-import math, random, itertools
+import math, random, itertools, functools
 from lib.native import Native
 
 SEED = 12345
@@ -27,6 +27,12 @@ def _fg():
 
 
 def T(tier, q, th): return q if tier == 'quick' else th
+
+
+# The real group constructors are called once per process and parameter set (specs are hashable tuples of literals): the bit-length forms
+# (QuadraticResidues(l=), SchnorrGroup(l=, n=), ClassGroup(l=), HyperellipticCurve(l=)) search for primes on every call, only the inner
+# _QuadraticResidues(p) etc. are cached by the module, and that search (pure-Python primality tests) would dominate the run time.
+_memo = functools.lru_cache(maxsize=None)
 
 
 # ================================================================= number theory written for the check
@@ -304,11 +310,13 @@ SYM_NATIVES = [
 
 
 # ================================================================= quadratic residues and Schnorr groups (oracle: ints mod p)
+@_memo
 def _qr(spec):
     fg = _fg()
     return fg.QuadraticResidues(l=spec[1]) if spec[0] == 'l' else fg.QuadraticResidues(spec[1])
 
 
+@_memo
 def _sg(spec):
     fg = _fg()
     if spec[0] == 'pqg': return fg.SchnorrGroup(p=spec[1], q=spec[2], g=spec[3])
@@ -1180,6 +1188,7 @@ def hc_valid(f, p, g, D):
     return None
 
 
+@_memo
 def _hc(spec):
     return _fg().HyperellipticCurve(**dict(spec))
 
@@ -1707,6 +1716,7 @@ def o_cl_pow(D, f, n):
     return r2l_power(lambda x, y: o_cl_compose(D, x, y), lambda x: o_cl_inv(D, x), o_cl_one(D), f, n)
 
 
+@_memo
 def _cl(spec):
     fg = _fg()
     return fg.ClassGroup(Delta=spec[1]) if spec[0] == 'D' else fg.ClassGroup(l=spec[1])
